@@ -165,5 +165,5 @@ def place_fault(rng, events, eligible, kinds=("kill", "io_error", "torn")):
     if kind == "io_error":
         f["errno"] = rng.choice([28, 5])  # ENOSPC, EIO
         if rng.random() < 0.3:
-            f["persistent"] = True        # the disk stays full / the mount stays dead for the rest of the operation
+            f["persistent"] = True        # the disk stays full for the rest of the operation: later WRITES fail too
     return f
